@@ -506,9 +506,18 @@ func decodedSegments(escaped string) ([]string, bool) {
 func runeChars(s string) []string {
 	out := []string{}
 	for _, rn := range s {
-		out = append(out, string(rn))
+		out = append(out, runeAtom(rn))
 	}
 	return out
+}
+
+// runeAtom names one "character" of the specification: ASCII bytes stand for themselves, any other rune is
+// an opaque atom with an ASCII name (generated .tla modules and TLC's file decoding stay ASCII-only).
+func runeAtom(rn rune) string {
+	if rn < 128 {
+		return string(rn)
+	}
+	return fmt.Sprintf("u%04x", rn)
 }
 
 // runServeDirtyStatic: static routes whose patterns are not in canonical form (nothing forbids registering
